@@ -393,7 +393,7 @@ pub fn check_cli(bytes: &[u8], label: &str) -> Option<(String, String)> {
     let (inp, outp) = (format!("{dir}/kytea.bin"), format!("{dir}/model.zst"));
     std::fs::write(&inp, bytes).unwrap_or_else(|e| machinery_error(&e.to_string()));
     let out = std::process::Command::new(format!("{}/convert_kytea_model", crate::c19::CLI_DIR))
-        .args(["--model-in", &inp, "--model-out", &outp])
+        .args(["--model-in", &inp, "--model-out", &outp, "--zstd-workers", if bytes.len() % 2 == 0 { "0" } else { "3" }])
         .output()
         .unwrap_or_else(|e| machinery_error(&format!("cannot run convert_kytea_model: {e}")));
     let stderr = String::from_utf8_lossy(&out.stderr).to_string();
